@@ -71,7 +71,7 @@ def decode(data: bytes) -> dict:
             for _ in range(d.i(0, 2)):
                 body.append(["wait"] if d.p(0.55) else ["yield", d.i(1, 3)])
             prog["steps"].append({"op": "consumer", "body": body, "end": d.pick(["ret", "ret", "raise", "ret", "raise", "raise-nasty"]), "n": d.i(1, 2),
-                                  "swallow": d.p(0.1), "nested": d.p(0.15)})
+                                  "swallow": d.p(0.1), "nested": ("other" if d.p(0.3) else True) if d.p(0.2) else False})
         elif r < 46:
             prog["steps"].append({"op": "agen", "how": d.pick(["aclose", "aclose", "exhaust", "throw"])})
         elif r < 60:
@@ -102,6 +102,7 @@ class QRun:
         self.inconclusive: Optional[str] = None
         self.next_item = 0
         self.putters: List[Any] = []
+        self.puts2 = self.exits2 = 0
 
     def fail(self, clause: str, detail: str = "") -> None:
         if self.teardown or any(v["clause"] == clause for v in self.viol):
@@ -147,7 +148,27 @@ class QRun:
                     self.labels.add("nested-blocks")
                     rec["inner"] = True
                     try:
-                        await self.consumer(rec, dict(spec, nested=False))
+                        if spec.get("nested") == "other":
+                            # the inner block belongs to another queue of the same class (one task, two queues)
+                            self.labels.add("nested-blocks-of-two-queues")
+                            tok = object()
+                            self.q2.put_nowait(tok)
+                            self.puts2 += 1
+                            async with self.q2 as got:
+                                try:
+                                    if got is not tok:
+                                        self.fail("item/second-queue-handed-out-something-else", repr(got))
+                                    rec["state"] = "inbody"
+                                    for step in spec["body"]:
+                                        if step[0] == "wait":
+                                            await self.wait()
+                                        else:
+                                            for _ in range(step[1]):
+                                                await asyncio.sleep(0)
+                                finally:
+                                    self.exits2 += 1
+                        else:
+                            await self.consumer(rec, dict(spec, nested=False))
                     finally:
                         self.exits += 1
                         self.zero_check()
@@ -270,6 +291,9 @@ class QRun:
                 self.fail("join/not-released-although-all-processed", f"puts {self.puts} exits {self.exits}")
             if j["task"].done() and not j["task"].cancelled() and j["task"].exception() is not None:
                 self.fail("join/raised", repr(j["task"].exception()))
+        un2 = getattr(self.q2, "_unfinished_tasks", None)
+        if un2 is not None and un2 != self.puts2 - self.exits2:
+            self.fail("mark/second-queue-unfinished-count", f"queue counts {un2}, harness {self.puts2}-{self.exits2}")
         un = getattr(self.q, "_unfinished_tasks", None)
         if un is not None and un != self.puts - self.exits:
             self.fail("mark/unfinished-count-vs-puts-minus-exits", f"queue counts {un}, harness {self.puts}-{self.exits}")
@@ -294,6 +318,7 @@ class QRun:
     async def driver(self) -> None:
         from asyncio_taskpool.queue_context import Queue
         self.q = Queue(maxsize=self.prog["maxsize"])
+        self.q2 = Queue()
         for st_ in self.prog["steps"]:
             op = st_["op"]
             if op == "put":
